@@ -82,6 +82,23 @@ template <class PT> void run_cloud(vf::Ctx& c, const char* tname, const Cloud& c
     if (!eq(c3[i], c4[i]) || !eq(c3[i], c5[i]) || !eq(c3[i], c6[i]) || !eq(r5[i], r6[i])) same = false;
     if (!same) { c.violation("NormalAndCurvatureEstimation.overloadsDisagree", params0, vf::JO().u("point", i).vec("n1", std::vector<double>{(double)n1[i][0], (double)n1[i][1]}).vec("n2", std::vector<double>{(double)n2[i][0], (double)n2[i][1]}).vec("n3", std::vector<double>{(double)n3[i][0], (double)n3[i][1]}).vec("curv", std::vector<double>{(double)c3[i], (double)c4[i], (double)c5[i], (double)c6[i]}).vec("rel", std::vector<double>{(double)r5[i], (double)r6[i]}).done()); break; }
   }
+  // history: a second tree shared with estimators of other neighbourhood sizes (smaller first, larger later), and the estimator itself
+  // used on another cloud in between; the answers for this cloud must not change
+  {
+    KdTree<PT> tree2(P);
+    NormalAndCurvatureEstimation<PT> small(std::min<size_t>(3, k)), large(std::min<size_t>(N - 1, k + 7));
+    NormalSet<PT> t1 = fresh_normals(), t2 = fresh_normals(), n7 = fresh_normals(), n8 = fresh_normals(); std::vector<S> c7(N), c8(N);
+    small.compute(P, tree2, t1);
+    est.compute(P, tree2, n7, c7);
+    large.compute(P, tree2, t2);
+    PointSet<PT> part(P.begin(), P.begin() + std::max<size_t>(k + 1, N / 2)); NormalSet<PT> tp(part.size(), PT(PT::Zero())); est.compute(part, tp);
+    est.compute(P, tree2, n8, c8);
+    auto eq = [](S a, S b) { return a == b || (a != a && b != b); };
+    for (size_t i = 0; i < N; ++i) {
+      bool same = eq(c7[i], c3[i]) && eq(c8[i], c3[i]); for (int d = 0; d < DIM; ++d) if (n7[i][d] != n1[i][d] || n8[i][d] != n1[i][d]) same = false;
+      if (!same) { c.violation("NormalAndCurvatureEstimation.dependsOnHistory", params0, vf::JO().u("point", i).vec("fresh", std::vector<double>{(double)n1[i][0], (double)n1[i][1], (double)c3[i]}).vec("after_smaller_k_on_the_tree", std::vector<double>{(double)n7[i][0], (double)n7[i][1], (double)c7[i]}).vec("after_larger_k_and_other_cloud", std::vector<double>{(double)n8[i][0], (double)n8[i][1], (double)c8[i]}).done()); break; }
+    }
+  }
   // un-rotated run for equivariance
   NormalSet<PT> base;
   if (rot) { NormalAndCurvatureEstimation<PT> e0(k); base = NormalSet<PT>(N, PT(PT::Zero())); e0.compute(pts, base); }
@@ -168,6 +185,7 @@ std::string vf_describe(const std::string& tier) {
   o.str("rotations", "identity, Rz(0.3), Rx(1.1)Ry(-0.7) (2D: R(-2.0)), Rz(pi)");
   o.str("output_normals", "zero-initialised and default-constructed (homogeneous coordinate 1; Cartesian: constant 0.5)");
   o.str("overloads", "all six compute overloads, compared bitwise");
+  o.str("history", "a second kd-tree shared with an estimator of smaller k (first) and larger k (later), the estimator under test also run on a sub-cloud in between: answers bit-equal to the first run");
   o.str("oracle", "unit Cartesian length; n.p<=0; direction vs long-double PCA of the library's own k-NN answer with bound 6 eps (1+R/s)/gap (cases with gap<=1e-6, bound>0.05 or a k/(k+1) distance tie are skipped); planar clouds: surface normal and zero curvature; curvature in [0,1/DIM]; R n(p) = n'(R p)");
   return o.done();
 }
